@@ -2,7 +2,7 @@
 # usage: confirm_mutant.sh <prop> <Mx> : confirm in the scratch worktree /tmp/wt/<prop> that the mutant (a) applies, (b) passes the
 # whole repository suite, (c) makes its demo fail, (d) demo passes without it; then store it as /verif/seeded/<prop>-<Mx>/
 set -u
-p=$1; m=$2; wt=/tmp/wt/$p; src=$wt/_out/$m; dst=/verif/seeded/$p-$m
+p=$1; m=$2; sfx=${3:-}; wt=/tmp/wt/$p$sfx; src=$wt/_out/$m; dst=/verif/seeded/$p-$m
 cd $wt || exit 2
 git checkout -q -- lib tests 2>/dev/null
 PYTHONPATH=$wt/lib /venv/bin/python $src/demo.py > /tmp/wt/demo_clean.txt 2>&1; clean=$?
@@ -20,7 +20,7 @@ notes = open(f'/verif/seeded/{p}-{m}/notes.txt').read()
 json.dump({'property': p, 'origin': 'independent sub-agent given only the property text and a scratch worktree',
            'needs_to_manifest': notes.strip(),
            'confirmed': {'suite_with_patch': suite.strip(), 'demo_with_patch': 'FAIL (rc!=0)', 'demo_without_patch': 'PASS (rc=0)',
-                         'how': 'tools/confirm_mutant.sh in /tmp/wt/%s' % p},
+                         'how': 'tools/confirm_mutant.sh in a scratch worktree of /repo HEAD'},
            'detected_by': None}, open(f'/verif/seeded/{p}-{m}/meta.json', 'w'), indent=1)
 PY
   echo "stored $dst"
